@@ -45,7 +45,35 @@ SniffOK(pre, hooks) == \A i \in DOMAIN hooks : hooks[i].ev = "Open" =>
       /\ (pre.kind = "cas" => hooks[i].sniffed = "CASSETTE") /\ (pre.kind = "dsk" => hooks[i].sniffed = "DISK")
 WroteOK(pre, cmd, cat, hooks) == \A i \in DOMAIN hooks : (hooks[i].ev = "Save" /\ hooks[i].wrote) =>
       ((\E post \in Allowed(pre, cmd, LAMBDA ids : FitsOn(cat, ids)) \cup Allowed(pre, cmd, LAMBDA ids : FitsOnMin(cat, ids)) : post # pre) \/ (cmd.app /\ Compatible(pre, cmd.sw)))   \* (an append of nothing rewrites the same content)
-Judge1(cat, pre, e) ==
+\* ONE invocation that names the same path under two switches (cmd.sw2 # ""): the tool performs two saves one after the other, so the required content is the
+\* composition of the table with itself - in either order, the order of the saves inside one invocation being the tool's business.  What the first save
+\* created EXISTS when the second one looks at the path: it may only be appended to, by a save of its own kind.
+AllowedBoth(cat, pre, cmd) == Allowed(pre, cmd, LAMBDA ids : FitsOn(cat, ids)) \cup Allowed(pre, cmd, LAMBDA ids : FitsOnMin(cat, ids))
+AllowedSeq(cat, pre, c1, c2) == UNION {AllowedBoth(cat, p1, c2) : p1 \in AllowedBoth(cat, pre, c1)}
+ClassifyAny(cat, cmd, cmd2, p) ==
+  LET first == IF p.len = 161280 /\ "dsk" \in {cmd.sw, cmd2.sw} THEN (IF cmd.sw = "dsk" THEN cmd ELSE cmd2) ELSE (IF cmd.sw = "dsk" THEN cmd2 ELSE cmd)
+      second == IF first = cmd THEN cmd2 ELSE cmd
+      c1 == Classify(cat, first, p)
+  IN IF c1.kind # "junk" THEN c1 ELSE Classify(cat, second, p)
+JudgeTwo(cat, pre, e) ==
+  LET cmd == e.cmd
+      cmd2 == [cmd EXCEPT !.sw = cmd.sw2]
+      post0 == IF e.same THEN pre ELSE ClassifyAny(cat, cmd, cmd2, e.post)
+      post == [post0 EXCEPT !.big = pre.big]
+      \* ... or stops after the first save, or does nothing at all (file_util ends at the first save that is refused): C10 is about what may be MODIFIED; that an
+      \* append which applies does happen is judged on the single-switch invocations.  The final content alone cannot tell "the first save was skipped" from "the
+      \* second save replaced what the first had just created": the Save hook events say how many saves WROTE, and the table says how many may (<<writes, content>>).
+      nw == Cardinality({i \in DOMAIN e.hooks : e.hooks[i].ev = "Save" /\ e.hooks[i].wrote})
+      CanWrite(p0, c, p1) == IF p1 # p0 THEN {1} ELSE IF c.app /\ Compatible(p0, c.sw) THEN {0, 1} ELSE {0}
+      PairsOne(c) == UNION {{<<n, p1>> : n \in CanWrite(pre, c, p1)} : p1 \in AllowedBoth(cat, pre, c)}
+      PairsSeq(c1, c2) == UNION {UNION {{<<n1 + n2, p2>> : n1 \in CanWrite(pre, c1, p1), n2 \in CanWrite(p1, c2, p2)} : p2 \in AllowedBoth(cat, p1, c2)} : p1 \in AllowedBoth(cat, pre, c1)}
+      pairs == PairsSeq(cmd, cmd2) \cup PairsSeq(cmd2, cmd) \cup PairsOne(cmd) \cup PairsOne(cmd2) \cup {<<0, pre>>}
+      cl == [allowed |-> IF e.hooks = <<>> THEN post \in {pr[2] : pr \in pairs} ELSE <<nw, post>> \in pairs,
+             notraceback |-> ~e.tb]
+  IN [post |-> post0, failed |-> SetToSeq({c \in DOMAIN cl : ~cl[c]}),
+      class |-> [tool |-> cmd.tool, sw |-> cmd.sw, app |-> cmd.app, named |-> cmd.named, pre |-> pre.kind, big |-> pre.big,
+                 newn |-> Len(cmd.new), srcn |-> cmd.srcn, post |-> post.kind, same |-> e.same, fits |-> FitsOn(cat, pre.files \o cmd.new)]]
+JudgeOne(cat, pre, e) ==
   LET cmd == e.cmd
       F(ids) == FitsOn(cat, ids)
       Fm(ids) == FitsOnMin(cat, ids)
@@ -77,6 +105,7 @@ Judge1(cat, pre, e) ==
   IN [post |-> post0, failed |-> SetToSeq({c \in DOMAIN cl : ~cl[c]}),
       class |-> [tool |-> cmd.tool, sw |-> cmd.sw, app |-> cmd.app, named |-> cmd.named, pre |-> pre.kind, big |-> pre.big,
                  newn |-> Len(cmd.new), srcn |-> cmd.srcn, post |-> post.kind, same |-> e.same, fits |-> F(pre.files \o cmd.new)]]
+Judge1(cat, pre, e) == IF e.cmd.sw2 = "" THEN JudgeOne(cat, pre, e) ELSE JudgeTwo(cat, pre, e)
 Judge(h) == [id |-> h.id, steps |-> FoldLeft(LAMBDA acc, e : LET j == Judge1(h.cat, acc.cur, e) IN
                                                [cur |-> j.post, out |-> Append(acc.out, [failed |-> j.failed, class |-> j.class, post |-> j.post])],
                                              [cur |-> h.init, out |-> <<>>], h.events).out]
